@@ -16,10 +16,14 @@ MANIFEST = {
             "a channel/WaitGroup while holding a lock, then every reachable configuration is finished, can step, or has all unfinished "
             "goroutines parked lock-free at a blocking operation; lock waiters are never stuck. A boolean checker is proved sound and "
             "evaluated (vm_compute) on the lock/blocking skeleton of every function of block_cache.go, data_access.go, chain.go, "
-            "certificate/pool.go, event.go, diffdb/db.go, block_sync.go, sync.go (and txpool), re-extracted from /repo on every run by a "
-            "fail-closed go/ast translator; instances: blockCache, chain readers + consensus writer, certificate Pool, EventEmitter, "
+            "certificate/pool.go, event.go, diffdb/db.go, block_sync.go, sync.go and of EVERY other file of their packages (and txpool), "
+            "re-extracted from /repo on every run by a go/ast translator that inlines all callees of those packages and refuses (exit != 0) "
+            "method values, unresolved receivers, unknown identifiers, exitless loops; instances: blockCache, chain readers + consensus writer, certificate Pool, EventEmitter, "
             "diffdb.Database, sync, all listed code at once. Stuck configurations are proved for each unsafe pattern (nested RLock with "
             "a queued writer - reachable from the old blockCache.last -, RLock/Lock under Lock, order inversion, blocking under a lock). "
+            "Tip: Gallina model of database + block cache (Conc/TipCache.v): every LastBlock read in any intermediate state of any "
+            "AddBlock/RemoveBlock sequence returns the chain tip immediately before or after the writer operation in progress, never "
+            "nothing (pop-then-reload refuted); the harness brackets reader calls with the writer's operation number. "
             "Bulk lookups: per-index slots / locked appends return every existing item exactly once for every schedule, racy append "
             "provably loses items; the translator classifies every goroutine fan-out of the listed files (none racy). Complete blocks: a "
             "getter that reads all parts of a block through one snapshot returns exactly the committed block or not-found in every "
@@ -35,8 +39,11 @@ MANIFEST = {
             "watchdog. A race report, hang, panic, torn block or multiset mismatch is a violation.",
     "note": "Partial by nature: the Go memory model and scheduler are outside Coq; the theorem is about skeletons (lock discipline), "
             "data-race freedom itself is sampled by the race detector on the harness schedules. Assumptions: sync.RWMutex is "
-            "writer-preferring; a send to a subscriber returns once the subscriber receives or the subscription is removed (opaque call in "
-            "the skeleton); opaque calls under a lock return; "
+            "writer-preferring; selects with a default or quit arm are steps (Guarded), every other channel operation is a Block; that "
+            "the quit arm of subscription.send is signalled before the remover locks is an argument in the docs, not a theorem; calls into "
+            "untranslated packages return; the generated-instance theorems (safe_*, fanouts, multi_reads, single sections, lock never "
+            "held while waiting) are checker decisions on translator output for the current source; the progress theorem releases "
+            "every Block through the environment (it does not relate errgroup.Wait to its children); "
             "all instances of a lock field are one lock class (the discipline forbids holding two of a class). Trusted: Coq "
             "kernel + vm_compute, translate/skeletons, Go race detector, harness, Python glue.",
 }
